@@ -11,6 +11,7 @@ import SigModel.Gen.TimeRange
 import SigModel.Spec.Logs
 import SigModel.Lemmas.C02Kd
 import SigModel.Lemmas.C02Sub
+import SigModel.Lemmas.SegSelect
 
 namespace SigModel.Props.C02
 open SigModel.Gen SigModel.Spec
@@ -482,5 +483,77 @@ theorem subWord_exact_iff_token_rule (hay needle : Bytes) :
 example : subWord false [120, 116, 105, 109, 101, 111, 117, 116, 32, 116, 105, 109, 101, 111, 117, 116] [116, 105, 109, 101, 111, 117, 116] = true := by decide
 
 end FreeText
+
+/-! ### Segment selection by time (Model/SegSelect.lean: bulkAddSegmentMicroIndex, FilterSegmentsByTime,
+FilterUnrotatedSegmentsInQuery, getAllSegmentsInQuery / getAllSegmentsInAggs; tied by the suite `segsel`)
+
+Before any block is looked at, a query decides by TIME which segments of the queried indexes it reads.  The segments of an
+index may have any widths, overlap, be nested and be added in any order (several ingest streams, back-filled events). -/
+section SegSelect
+open SigModel.SegSelect
+
+/-- C02.4d COMPLETE: a segment — rotated or open, of a queried index and the query's org — that holds an instant of the query
+range is selected: by FilterSegmentsByTime when it is in its table's slice (whatever else the slice holds, in whatever
+order), by FilterUnrotatedSegmentsInQuery when it is open, and the query's request list has a request for its key.  For all
+ranges, bounds and lists; no assumption on order, widths or well-formedness. -/
+theorem segment_select_complete (qs qe org t : Int) (indexes : List Nat) (tables : Nat → List Seg) (open_ : List Seg) (s : Seg)
+    (hq1 : qs ≤ t) (hq2 : t ≤ qe) (hs1 : s.earliest ≤ t) (hs2 : t ≤ s.latest) (horg : s.org = org) (hix : s.table ∈ indexes) :
+    (s ∈ tables s.table → s ∈ filterRotated qs qe org indexes tables) ∧
+    (s ∈ open_ → s ∈ filterUnrotated qs qe org indexes open_) ∧
+    ((s ∈ tables s.table ∨ s ∈ open_) →
+      ∃ s' ∈ (collect qs qe org indexes tables open_).1 ++ (collect qs qe org indexes tables open_).2, s'.key = s.key) := by
+  have hk := keep_of_point qs qe org t s hq1 hq2 hs1 hs2 horg
+  have hr : s ∈ tables s.table → s ∈ filterRotated qs qe org indexes tables :=
+    fun h => (mem_filterRotated ..).mpr ⟨s.table, hix, h, hk⟩
+  have hu : s ∈ open_ → s ∈ filterUnrotated qs qe org indexes open_ :=
+    fun h => (mem_filterUnrotated ..).mpr ⟨h, hix, hk⟩
+  refine ⟨hr, hu, fun h => collect_has_key qs qe org indexes tables open_ s ?_⟩
+  rcases h with h | h
+  · exact Or.inl (hr h)
+  · exact Or.inr (hu h)
+
+/-- C02.4d for the tables as bulkAddSegmentMicroIndex builds them: the rotated segments added in ANY order, cut into ANY
+bulks (each bulk re-sorts the slices by the segments' ends, descending), a segment whose key no other added segment carries
+is selected when it holds an instant of the range -/
+theorem segment_select_complete_any_order (qs qe org t : Int) (indexes : List Nat) (bulks : List (List Seg)) (s : Seg)
+    (hq1 : qs ≤ t) (hq2 : t ≤ qe) (hs1 : s.earliest ≤ t) (hs2 : t ≤ s.latest) (horg : s.org = org) (hix : s.table ∈ indexes)
+    (huniq : ∀ b ∈ bulks, ∀ y ∈ b, y.key = s.key → y = s) (hin : ∃ b ∈ bulks, s ∈ b) :
+    s ∈ filterRotated qs qe org indexes (tableOf bulks) :=
+  (segment_select_complete qs qe org t indexes (tableOf bulks) [] s hq1 hq2 hs1 hs2 horg hix).1 (mem_tableOf bulks s huniq hin)
+
+/-- C02.4e SOUND: what is selected belongs to a queried index and to the query's org and — for a well-formed range and
+segment — shares an instant with the range (nothing disjoint is read) -/
+theorem segment_select_sound (qs qe org : Int) (indexes : List Nat) (tables : Nat → List Seg) (open_ : List Seg) (s : Seg)
+    (hq : qs ≤ qe) (hs : s.earliest ≤ s.latest)
+    (h : s ∈ filterRotated qs qe org indexes tables ∨ s ∈ filterUnrotated qs qe org indexes open_) :
+    s.org = org ∧ ((∃ ix ∈ indexes, s ∈ tables ix) ∨ (s ∈ open_ ∧ s.table ∈ indexes)) ∧
+      ∃ t, qs ≤ t ∧ t ≤ qe ∧ s.earliest ≤ t ∧ t ≤ s.latest := by
+  have key : keep qs qe org s = true → s.org = org ∧ ∃ t, qs ≤ t ∧ t ≤ qe ∧ s.earliest ≤ t ∧ t ≤ s.latest := by
+    intro hk
+    unfold keep at hk
+    simp at hk
+    exact ⟨hk.2, point_of_overlaps qs qe s hq hs hk.1⟩
+  rcases h with h | h
+  · obtain ⟨ix, hix, hm, hk⟩ := (mem_filterRotated ..).mp h
+    exact ⟨(key hk).1, Or.inl ⟨ix, hix, hm⟩, (key hk).2⟩
+  · obtain ⟨hm, hix, hk⟩ := (mem_filterUnrotated ..).mp h
+    exact ⟨(key hk).1, Or.inr ⟨hm, hix⟩, (key hk).2⟩
+
+/-- the walk may NOT stop early: sorted by their ends (descending), the segments overlapping a range are not next to each
+other when widths differ — a walk that stops at the first non-overlapping segment once it has seen an overlapping one
+(`filterRotatedEarlyExit`, not the code) loses the segment [2000, 3000] for the range [1500, 5000] behind [1000, 9000] and
+[7000, 7100] -/
+theorem early_exit_counterexample :
+    let segs := [⟨1, 0, 1000, 9000, 0⟩, ⟨2, 0, 7000, 7100, 0⟩, (⟨3, 0, 2000, 3000, 0⟩ : Seg)]
+    let tables : Nat → List Seg := fun ix => if ix = 0 then sortDesc segs else []
+    (⟨3, 0, 2000, 3000, 0⟩ : Seg) ∈ filterRotated 1500 5000 0 [0] tables ∧
+    (⟨3, 0, 2000, 3000, 0⟩ : Seg) ∉ filterRotatedEarlyExit 1500 5000 0 [0] tables := by
+  decide
+
+/-- non-vacuity: the hypotheses of `segment_select_complete` hold for the segment of the counterexample -/
+example : (1500 : Int) ≤ 2500 ∧ (2500 : Int) ≤ 5000 ∧ (⟨3, 0, 2000, 3000, 0⟩ : Seg).earliest ≤ 2500 ∧
+    (2500 : Int) ≤ (⟨3, 0, 2000, 3000, 0⟩ : Seg).latest := by decide
+
+end SegSelect
 
 end SigModel.Props.C02
